@@ -277,6 +277,9 @@ def main(argv=None):
     coqchk = None
     if run_tier == "thorough" and not proof_broken and not replay:
         with Lock():
+            # another check may have regenerated gen/SrcFacts.vo since our build: bring the property's
+            # closure up to date under the same lock, then re-check it with coqchk
+            sh(["timeout", "1500", "make", "-C", COQ, "-j8"] + [f + ".vo" for f in cfg["coq"]], 1600)
             rc_chk, out_chk = sh(["timeout", "2400", "coqchk", "-silent", "-o", "-R", COQ, "SS"] + ["SS." + f for f in cfg["coq"]], 2500)
         m = re.search(r"\* Axioms:(.*?)\n\s*\n\* Constants/Inductives relying on type-in-type:(.*?)\n", out_chk, re.S)
         coqchk = {"rc": rc_chk, "axioms": " ".join(m.group(1).split()) if m else "?",
